@@ -15,7 +15,7 @@ RULE = (
     "configurations = solver x scenario x continue_with_unconverged x reuse_lu_decomposition; for each, the decision "
     "points of the 5-step run are recorded by a dry run and every subset of size 1 (quick; size <= 2 for a subset of configurations, "
     "all configurations in the thorough tier) is forced to fail; one case = (configuration, first forced point i) and covers {i} and all {i,j}, j>i; "
-    "every Newton decision point is additionally forced to diverge to a non-finite residual (fault kind 'nan', singletons). "
+    "every Newton decision point (and every fixed-point helper call of the dual Stoermer-Verlet scheme) is additionally forced to diverge to a non-finite residual / iterate (fault kind 'nan', singletons). "
     "A case is non-trivial if at least one forced failure was effective (the helper really reported non-convergence)"
 )
 ASSUMPTIONS = [
@@ -272,7 +272,7 @@ def cases(tier, seed):
                         "n_points": n, "bound": 2 if pairs else 1})
         # second fault kind at every Newton decision point: the iteration diverges to a non-finite residual (singletons)
         for i in range(n):
-            if plan.log[i]["kind"] == "newton":
+            if plan.log[i]["kind"] == "newton" or (DYN[solver].get("dsv") and plan.log[i]["kind"] == "fixed_point"):
                 out.append({"kind": "inject", "mode": "nan", "solver": solver, "scen": scen, "flag": flag, "reuse": reuse, "first": i,
                             "n_points": n, "bound": 1})
     # unsupported model parts: smooth wrappers on a system with a unilateral contact
